@@ -208,12 +208,8 @@ func (s *scanner) processTail() (lexeme.LexEvent, error) {
 	case lexeme.InlineAnnotationTextBegin:
 		return s.processingFoundLexeme(lexeme.InlineAnnotationTextEnd)
 
-	case lexeme.MultiLineAnnotationBegin:
-		return s.processingFoundLexeme(lexeme.MultiLineAnnotationEnd)
-
-	case lexeme.MultiLineAnnotationTextBegin:
-		return s.processingFoundLexeme(lexeme.MultiLineAnnotationTextEnd)
 	}
+	// A multi-line annotation has to be closed.
 
 	err := kit.NewJSchemaError(s.file, errs.ErrUnexpectedEOF.F())
 	err.SetIndex(s.dataSize - 1)
